@@ -13,8 +13,8 @@ import (
 	"time"
 
 	"github.com/btcsuite/btcd/chainhash/v2"
-	"github.com/btcsuite/btclog"
 	"github.com/btcsuite/btcd/wire/v2"
+	"github.com/btcsuite/btclog"
 	"github.com/btcsuite/btcwallet/walletdb"
 	_ "github.com/btcsuite/btcwallet/walletdb/bdb"
 	"github.com/lightninglabs/neutrino"
